@@ -48,6 +48,8 @@ inductive Pc
   | wBody
   -- _commit_version / _commit_version_unlocked
   | cAcq | cAppend | cPrune | cNodes
+  -- the pruning policy raised inside `_prune_versions_unlocked()`: `self._versions.pop()`, end the write, re-raise
+  | cUndo
   -- _end_write
   | rAcq
   -- _end_write_unlocked / _maybe_wakeup_one_waiter_unlocked
@@ -63,6 +65,9 @@ structure Cfg where
   body : Tid → Content → Content
   /-- `writer(replacement=True)`: the private version starts empty instead of as a copy of the zone -/
   repl : Tid → Bool := fun _ => false
+  /-- the user-supplied pruning policy raises during the commit of thread `t` (an arbitrary callback: the model
+  takes the outcome as a parameter, the theorems hold for every choice) -/
+  pruneFails : Tid → Bool := fun _ => false
 
 structure Local where
   pc : Pc := .idle
@@ -163,7 +168,10 @@ def step (c : Cfg) (s : State) (t : Tid) : Option State :=
   -- self._versions.append(version)
   | .cAppend => some ({ s with versions := s.versions ++ [(l.vid, l.snap)] }.setLoc t { l with pc := .cPrune })
   -- self._prune_versions_unlocked()
-  | .cPrune => some (s.setLoc t { l with pc := .cNodes })
+  | .cPrune =>
+    if c.pruneFails t then some (s.setLoc t { l with pc := .cUndo }) else some (s.setLoc t { l with pc := .cNodes })
+  -- except BaseException: self._versions.pop(); self._end_write_unlocked(txn); raise
+  | .cUndo => some ({ s with versions := s.versions.dropLast }.setLoc t { l with pc := .eTxnNone })
   -- self.nodes = version.nodes
   | .cNodes => some ({ s with nodes := l.snap, committed := s.committed ++ [t] }.setLoc t { l with pc := .eTxnNone })
   -- _end_write: with self._version_lock:
@@ -222,7 +230,7 @@ def run (c : Cfg) : State → List Tid → Option State
 inductive Label
   | tau | acq | rel
   | new (e : Ev) | app (e : Ev) | wait (e : Ev) | set (e : Ev) | pop (e : Ev)
-  | txnOpen | txnClose | wevClear | ver | nod | rdAdd | rdDel | ret | rret | seen
+  | txnOpen | txnClose | wevClear | ver | verDrop | nod | rdAdd | rdDel | ret | rret | seen
   | stuck
 deriving DecidableEq, Repr
 
@@ -239,6 +247,7 @@ def label (_c : Cfg) (s : State) (t : Tid) : Label :=
   | .wWait => match l.ev with | some e => .wait e | none => .stuck
   | .wReturn => .ret
   | .cAppend => .ver
+  | .cUndo => .verDrop
   | .cNodes => .nod
   | .eTxnNone => .txnClose
   | .ePop => match s.waiters with | e :: _ => .pop e | [] => .stuck
